@@ -138,6 +138,8 @@ Next ==
           \E qs \in (IF objs[i].phase = "interp" /\ objs[i].cfg.rank = 2 THEN QLists2 ELSE QLists) : Call(t, i, qs, buf)
     \/ \E t \in Threads : Return(t)
 Spec == Init /\ [][Next]_vars
+\* a call that has started returns (the library has no waiting: nothing but the scheduler can delay a Return)
+FairSpec == Spec /\ \A t \in Threads : WF_vars(Return(t))
 
 ----------------------------------------------------------------------------
 \* C17: an interpolator never changes after build
@@ -178,6 +180,9 @@ PeriodicFunction ==
             \A i \in 1..Len(a[2]), j \in 1..Len(b[2]) :
                 LET d == QSub(a[2][i], b[2][j]) IN
                 QMul(QFloor(QDiv(d, P)), P) = d => a[3].vals[i] = b[3].vals[j]
+\* every call terminates: no call waits for another call, a lock or a cache (bound to the code by the per-call
+\* watchdog of the harness: a call that does not return within 30 s is reported as a violation)
+EveryCallReturns == \A t \in Threads : pend[t].busy ~> ~pend[t].busy
 \* C09: result shape = query shape ++ trailing data dims
 ShapeOk == \A h \in hist : h[3].out = "Ok" => h[3].shape = <<Len(h[2])>>       \* one lane: no trailing axes
 =============================================================================
